@@ -18,12 +18,12 @@ import (
 )
 
 func init() {
-	treeRules := []func(*World, *Report){rulePairedEffects, ruleLinkSymmetry, ruleDetachBeforeAttach, ruleRawSetterCallers, ruleNilReference}
+	treeRules := []func(*World, *Report){rulePairedEffects, ruleLinkSymmetry, ruleEndsRecomputed, ruleDetachAliasing, ruleDetachBeforeAttach, ruleRawSetterCallers, ruleNilReference}
 	register(&Property{
 		ID:      "C05",
 		Level:   "other",
 		Explain: "Decides the link/count clause only: (P) along every path of every mutator of ast.BaseNode the change of childCount equals the number of nodes attached (SetParent(self)) minus the number detached (SetParent(nil)); a reset to zero happens only in the function that detaches every child in a loop over the child list; (L) on every path each x.next = y written is matched by y.prev = x (written on the same path or untouched because y was x's neighbour already) and vice versa; (D) a node is detached from its old parent before it is attached; (W) the raw link setters are called only inside package ast, so every other package can change the tree only through the checked mutators. Since Parse builds the tree exclusively through these mutators, ChildCount/Parent/sibling links agree with the child sequence of every parsed tree. Does NOT decide positions within the source, ordering of lines/segments, leftover bookkeeping nodes, legal placement of kinds, link nesting or heading/emphasis levels (values computed from the input).",
-		Rules:   treeRules,
+		Rules:   append(append([]func(*World, *Report){}, treeRules...), ruleLevelsBounded),
 	})
 	register(&Property{
 		ID:      "C13",
@@ -1137,4 +1137,413 @@ func isChildCursor(v ssa.Value, n *ssa.Parameter) bool {
 		}
 	}
 	return first && next
+}
+
+// ---- C13-E: after relinking in a loop, the ends are recomputed ---------------------------------------------
+
+// ruleEndsRecomputed: a mutator that re-links siblings inside a loop (a sort) cannot justify firstChild/lastChild
+// path by path; the accepted idiom is the one the code uses: store the new head into firstChild and then walk the
+// chain with NextSibling to its end, assigning lastChild at every step, after the last re-linking call.
+func ruleEndsRecomputed(w *World, r *Report) {
+	r.Rule("C13-E", "Every BaseNode mutator that calls SetNextSibling/SetPreviousSibling inside a loop (general re-linking, e.g. SortChildren) ends with the recomputation idiom: firstChild is stored, and a loop whose cursor starts at that value, steps by NextSibling() until nil and stores the cursor into lastChild in its body runs after the last re-linking call (no re-linking call is reachable from it). Otherwise LastChild() can name a node that still has a next sibling, or miss the real tail.")
+	tm := w.treeModel()
+	if tm == nil {
+		r.Unknown("ast.BaseNode", "", "tree model not found")
+		return
+	}
+	n := 0
+	for _, fn := range w.treeMutators(tm) {
+		loops, _ := naturalLoops(fn)
+		relinkInLoop := false
+		var relinkBlocks []*ssa.BasicBlock
+		for _, l := range loops {
+			for b := range l.body {
+				for _, ins := range b.Instrs {
+					if c, ok := ins.(ssa.CallInstruction); ok && c.Common().IsInvoke() {
+						if m := c.Common().Method.Name(); m == "SetNextSibling" {
+							relinkInLoop = true
+							relinkBlocks = append(relinkBlocks, b)
+						}
+					}
+				}
+			}
+		}
+		if !relinkInLoop {
+			continue
+		}
+		// a loop that only detaches (stores nil links and resets the ends to nil afterwards) is RemoveChildren: accept when
+		// the function stores nil to both ends after the loop
+		nilEnds := 0
+		for _, b := range fn.Blocks {
+			for _, ins := range b.Instrs {
+				if st, ok := ins.(*ssa.Store); ok && isNilConst(st.Val) {
+					if fa, ok := st.Addr.(*ssa.FieldAddr); ok && fa.X == ssa.Value(fn.Params[0]) {
+						if _, f := fieldOfAddr(fa); tm.byVar[f] == "first" || tm.byVar[f] == "last" {
+							nilEnds++
+						}
+					}
+				}
+			}
+		}
+		n++
+		key := w.FnKey(fn) + ": ends after re-linking"
+		if nilEnds >= 2 {
+			r.OK(key, w.FnPos(fn), "the loop detaches every child and both ends are set to nil")
+			continue
+		}
+		// recomputation loop
+		found := false
+		for _, l := range loops {
+			var cursor *ssa.Phi
+			for _, ins := range l.header.Instrs {
+				if p, ok := ins.(*ssa.Phi); ok && types.Identical(p.Type(), tm.nodeT) {
+					cursor = p
+				}
+			}
+			if cursor == nil {
+				continue
+			}
+			// body stores cursor into lastChild
+			storesLast := false
+			for b := range l.body {
+				for _, ins := range b.Instrs {
+					if st, ok := ins.(*ssa.Store); ok && st.Val == ssa.Value(cursor) {
+						if fa, ok := st.Addr.(*ssa.FieldAddr); ok && fa.X == ssa.Value(fn.Params[0]) {
+							if _, f := fieldOfAddr(fa); tm.byVar[f] == "last" {
+								storesLast = true
+							}
+						}
+					}
+				}
+			}
+			if !storesLast {
+				continue
+			}
+			// cursor steps by NextSibling, exits on nil, starts at firstChild (load) or the value stored to firstChild
+			stepOK, startOK := false, false
+			for i, e := range cursor.Edges {
+				pred := l.header.Preds[i]
+				if l.body[pred] {
+					if c, ok := e.(*ssa.Call); ok && c.Common().IsInvoke() && c.Common().Method.Name() == "NextSibling" && c.Common().Value == ssa.Value(cursor) {
+						stepOK = true
+					}
+				} else {
+					if fa, ok := loadOfField(e); ok && fa.X == ssa.Value(fn.Params[0]) {
+						if _, f := fieldOfAddr(fa); tm.byVar[f] == "first" {
+							startOK = true
+						}
+					}
+				}
+			}
+			exitNil := false
+			if iff, ok := l.header.Instrs[len(l.header.Instrs)-1].(*ssa.If); ok {
+				if x, _, ok := nilTest(iff.Cond); ok && x == ssa.Value(cursor) {
+					exitNil = true
+				}
+			}
+			// no re-linking reachable from this loop's header
+			after := map[*ssa.BasicBlock]bool{}
+			stack := []*ssa.BasicBlock{l.header}
+			for len(stack) > 0 {
+				x := stack[len(stack)-1]
+				stack = stack[:len(stack)-1]
+				if after[x] {
+					continue
+				}
+				after[x] = true
+				stack = append(stack, x.Succs...)
+			}
+			relinkAfter := false
+			for _, rb := range relinkBlocks {
+				if after[rb] {
+					relinkAfter = true
+				}
+			}
+			if stepOK && startOK && exitNil && !relinkAfter {
+				found = true
+			}
+		}
+		if found {
+			r.OK(key, w.FnPos(fn), "lastChild is recomputed by walking the chain from firstChild after the last re-linking call")
+		} else {
+			r.Unknown(key, w.FnPos(fn), "siblings are re-linked inside a loop but lastChild is not recomputed by a final walk from firstChild along NextSibling(): nothing here justifies that LastChild() is the end of the chain after the call (incremental tail tracking is not decided by this rule and needs review)")
+		}
+	}
+	r.Expect("mutators that re-link inside a loop", n, 2)
+}
+
+// ---- C05-V: levels of headings and emphasis are bounded where the node is created -------------------------------
+
+func ruleLevelsBounded(w *World, r *Report) {
+	r.Rule("C05-V", "Every call of ast.NewHeading(level) in the library has a level that is a constant in 1..6, a choice among such constants, or a value for which a fact implying level <= 6 (the failed test level > 6, or level < 7) dominates the call. (Emphasis levels are chosen by the delimiter algorithm and handed through an interface call: not decided.)")
+	check := func(ctor *ssa.Function, lo, hi int64, what string) int {
+		n := 0
+		if ctor == nil {
+			return 0
+		}
+		for _, fn := range w.Funcs {
+			for _, b := range fn.Blocks {
+				for _, ins := range b.Instrs {
+					c, ok := ins.(*ssa.Call)
+					if !ok || c.Common().StaticCallee() != ctor {
+						continue
+					}
+					n++
+					key := fmt.Sprintf("%s: %s #%d", w.FnKey(fn), what, n)
+					arg := c.Common().Args[0]
+					okAll := true
+					why := ""
+					for _, leaf := range phiLeaves(arg) {
+						if cv, ok := constInt(leaf); ok {
+							if cv < lo || cv > hi {
+								okAll, why = false, fmt.Sprintf("constant level %d", cv)
+							}
+							continue
+						}
+						// upper bound by a dominating fact on the argument itself (or on this leaf)
+						bounded := false
+						for _, cf := range dominatingConds(b) {
+							for _, v := range []ssa.Value{stripConv(arg), stripConv(leaf)} {
+								vv := v
+								isV := func(x ssa.Value) bool { return stripConv(x) == vv }
+								isBig := func(x ssa.Value) bool { cv, ok := constInt(x); return ok && cv >= hi && cv <= hi+1 }
+								// v <= hi  ⇔ !(v > hi) ; v < hi+1
+								for _, a := range condAtoms(cf.If.Cond, cf.Truth) {
+									bo, ok := a.V.(*ssa.BinOp)
+									if !ok {
+										continue
+									}
+									cy, yc := constInt(bo.Y)
+									if isV(bo.X) && yc {
+										if (bo.Op == token.GTR && !a.Truth && cy <= hi) || (bo.Op == token.LEQ && a.Truth && cy <= hi) || (bo.Op == token.LSS && a.Truth && cy <= hi+1) || (bo.Op == token.GEQ && !a.Truth && cy <= hi+1) {
+											bounded = true
+										}
+									}
+								}
+								_ = isBig
+							}
+						}
+						if !bounded {
+							okAll, why = false, fmt.Sprintf("no dominating fact bounds the level to <= %d", hi)
+						}
+					}
+					if okAll {
+						r.OK(key, w.InstrPos(ins), fmt.Sprintf("level within %d..%d", lo, hi))
+					} else {
+						r.Bad(key, w.InstrPos(ins), fmt.Sprintf("a node is created with a level that is not confined to %d..%d: %s", lo, hi, why))
+					}
+				}
+			}
+		}
+		return n
+	}
+	nh := check(w.PkgFunc("ast", "NewHeading"), 1, 6, "NewHeading")
+	r.Expect("calls of ast.NewHeading", nh, 3)
+}
+
+// ---- C13-S / C13-A: detaching calls and aliasing ------------------------------------------------------------
+
+var linkAccessors = map[string]bool{"PreviousSibling": true, "NextSibling": true, "Parent": true, "FirstChild": true, "LastChild": true}
+
+// detachers: functions of package ast that may detach a node given as parameter from its current position:
+// the isolating helpers, RemoveChild, and mutators that call one of these on a parameter.
+func (w *World) detachingCall(tm *treeModel, ins ssa.Instruction, mutIso map[*ssa.Function]bool) bool {
+	c, ok := ins.(ssa.CallInstruction)
+	if !ok {
+		return false
+	}
+	com := c.Common()
+	if com.IsInvoke() {
+		return com.Method.Name() == "RemoveChild" || com.Method.Name() == "RemoveChildren"
+	}
+	cal := com.StaticCallee()
+	if cal == nil {
+		return false
+	}
+	if tm.isoFns[cal] || mutIso[cal] {
+		return true
+	}
+	return cal.Name() == "RemoveChild" && cal.Signature.Recv() != nil
+}
+
+func ruleDetachAliasing(w *World, r *Report) {
+	tm := w.treeModel()
+	r.Rule("C13-S", "No stale link across a detach: in every tree mutator, a value read through a link accessor (PreviousSibling, NextSibling, Parent, FirstChild, LastChild) before a call that may detach a node (the isolating helper, RemoveChild, or a mutator that isolates its insertee) is not used after that call — the detach may have changed exactly that link (when the moved node is a neighbour of the reference).")
+	if tm == nil {
+		r.Unknown("ast.BaseNode", "", "tree model not found")
+		return
+	}
+	muts := w.methodsOfType(tm.base) // every method of BaseNode: wrappers such as InsertAfter/ReplaceChild only forward
+	// mutators that isolate a parameter
+	mutIso := map[*ssa.Function]bool{}
+	isoParam := map[*ssa.Function]*ssa.Parameter{}
+	var isoCall = map[*ssa.Function]ssa.Instruction{}
+	for changed := true; changed; {
+		changed = false
+		for _, m := range muts {
+			if mutIso[m] {
+				continue
+			}
+			for _, b := range m.Blocks {
+				for _, ins := range b.Instrs {
+					c, ok := ins.(ssa.CallInstruction)
+					if !ok {
+						continue
+					}
+					cal := c.Common().StaticCallee()
+					if cal == nil || !(tm.isoFns[cal] || mutIso[cal]) {
+						continue
+					}
+					for _, a := range c.Common().Args {
+						if p, ok := a.(*ssa.Parameter); ok && types.Identical(p.Type(), tm.nodeT) && (tm.isoFns[cal] || p == a) {
+							if tm.isoFns[cal] {
+								isoParam[m] = p
+								isoCall[m] = ins
+							}
+							mutIso[m] = true
+							changed = true
+						}
+					}
+				}
+			}
+		}
+	}
+	n := 0
+	for _, m := range muts {
+		var dets []ssa.Instruction
+		for _, b := range m.Blocks {
+			for _, ins := range b.Instrs {
+				if w.detachingCall(tm, ins, mutIso) {
+					dets = append(dets, ins)
+				}
+			}
+		}
+		if len(dets) == 0 {
+			continue
+		}
+		n++
+		key := w.FnKey(m) + ": links read before a detach"
+		bad := false
+		for _, b := range m.Blocks {
+			for _, ins := range b.Instrs {
+				lc, ok := ins.(*ssa.Call)
+				if !ok || !lc.Common().IsInvoke() || !linkAccessors[lc.Common().Method.Name()] {
+					continue
+				}
+				for _, d := range dets {
+					if !instrDominates(lc, d) {
+						continue
+					}
+					for _, u := range referrersOf(lc) {
+						if u == d {
+							continue // handed to the detaching call itself: covered by C13-A
+						}
+						if _, isDbg := u.(*ssa.DebugRef); isDbg {
+							continue
+						}
+						// a use that is only a comparison (nil test / identity test) before or after is harmless only if before
+						after := instrDominates(d, u) || reachesInstr(d, u)
+						if after && !bad {
+							bad = true
+							r.Bad(key, w.InstrPos(u), fmt.Sprintf("the value of %s() read at %s is used after the detaching call at %s: if the detached node was that neighbour, the link is stale (a move that should be a no-op corrupts the sibling chain)", lc.Common().Method.Name(), w.InstrPos(lc), w.InstrPos(d)))
+						}
+					}
+				}
+			}
+		}
+		if !bad {
+			r.OK(key, w.FnPos(m), fmt.Sprintf("%d detaching call(s); no link value is carried across them", len(dets)))
+		}
+	}
+	r.Expect("mutators containing a detaching call", n, 3)
+
+	r.Rule("C13-A", "Alias guard: when a mutator M isolates its insertee parameter X and afterwards consults another node parameter Y (the reference), and some mutator in package ast calls M with a reference that is derived from links (e.g. v.NextSibling()) while handing on its own insertee, that derived reference can be the insertee itself. M's isolating call must then be dominated by the fact Y != X (an early return on Y == X): otherwise 'insert b after a' where b already follows a detaches b and never re-attaches it.")
+	na := 0
+	for _, m := range muts {
+		x := isoParam[m]
+		if x == nil {
+			continue
+		}
+		for _, y := range m.Params {
+			if y == x || !types.Identical(y.Type(), tm.nodeT) || paramIndex(m, y) <= 1 {
+				continue
+			}
+			// is Y consulted after the isolate call?
+			consulted := false
+			for _, ref := range referrersOf(y) {
+				if c, ok := ref.(*ssa.Call); ok && c.Common().IsInvoke() && c.Common().Value == ssa.Value(y) && (instrDominates(isoCall[m], c) || reachesInstr(isoCall[m], c)) {
+					consulted = true
+				}
+			}
+			if !consulted {
+				continue
+			}
+			// internal callers passing a derived reference
+			var derivedAt ssa.Instruction
+			for _, caller := range muts {
+				for _, b := range caller.Blocks {
+					for _, ins := range b.Instrs {
+						c, ok := ins.(ssa.CallInstruction)
+						if !ok || c.Common().StaticCallee() != m {
+							continue
+						}
+						ay := c.Common().Args[paramIndex(m, y)]
+						ax := c.Common().Args[paramIndex(m, x)]
+						_, yIsParam := ay.(*ssa.Parameter)
+						_, xIsParam := ax.(*ssa.Parameter)
+						if !yIsParam && xIsParam {
+							derivedAt = ins
+						}
+					}
+				}
+			}
+			if derivedAt == nil {
+				continue
+			}
+			na++
+			key := fmt.Sprintf("%s: reference %s may be the insertee %s", w.FnKey(m), y.Name(), x.Name())
+			guarded := false
+			for _, cf := range dominatingConds(isoCall[m].Block()) {
+				for _, a := range condAtoms(cf.If.Cond, cf.Truth) {
+					bo, ok := a.V.(*ssa.BinOp)
+					if !ok {
+						continue
+					}
+					if (bo.X == ssa.Value(x) && bo.Y == ssa.Value(y)) || (bo.X == ssa.Value(y) && bo.Y == ssa.Value(x)) {
+						if (bo.Op == token.EQL && !a.Truth) || (bo.Op == token.NEQ && a.Truth) {
+							guarded = true
+						}
+					}
+				}
+			}
+			if guarded {
+				r.OK(key, w.InstrPos(isoCall[m]), "the isolating call is dominated by reference != insertee")
+			} else {
+				r.Bad(key, w.InstrPos(isoCall[m]), fmt.Sprintf("%s is called at %s with a reference read from a sibling link; when that sibling is the insertee itself, the insertee is detached here and then not re-attached because the reference (the same node) no longer belongs to the parent: the node is silently dropped", w.FnKey(m), w.InstrPos(derivedAt)))
+			}
+		}
+	}
+	r.Expect("mutators reached with a link-derived reference", na, 1)
+}
+
+// reachesInstr: b can execute after a on some path (different blocks; a's block reaches b's block).
+func reachesInstr(a, b ssa.Instruction) bool {
+	if a.Block() == b.Block() {
+		return instrIndex(a) < instrIndex(b)
+	}
+	seen := map[*ssa.BasicBlock]bool{}
+	stack := append([]*ssa.BasicBlock{}, a.Block().Succs...)
+	for len(stack) > 0 {
+		x := stack[len(stack)-1]
+		stack = stack[:len(stack)-1]
+		if seen[x] {
+			continue
+		}
+		seen[x] = true
+		if x == b.Block() {
+			return true
+		}
+		stack = append(stack, x.Succs...)
+	}
+	return false
 }
